@@ -483,6 +483,39 @@ Definition ls_init : ls_st := mkLs false false false false false false 0 0.
 Definition ls_final (s : ls_st) : bool := (ls_pcA s =? 3) && (ls_pcL s =? 3).
 Definition ls_ok (s : ls_st) : bool := negb (ls_badjoin s) && negb (ls_late s).
 
+(* ================================================================== 4h. rfbCloseClient against the handshake (auth.c, rfbserver.c rfbProcessClientInitMessage)
+   ONE client still in its handshake (states 0, 1, 2 = protocol version / security type / initialisation; 3 = RFB_NORMAL; 9 = RFB_SHUTDOWN).
+   thread 0 = rfbShutdownServer: rfbCloseClient (LOCK(updateMutex); state = RFB_SHUTDOWN; UNLOCK; notify) then pthread_join.
+   thread 1 = clientInput: while (state != RFB_SHUTDOWN) { select; read one handshake message; process it; STORE the next state }.
+   HEAD: the store is a plain assignment.  fixed (notes/fix_C13_8.diff): LOCK(updateMutex); if (state != RFB_SHUTDOWN) state = next; UNLOCK.
+   Once in RFB_NORMAL the (idle) client sends nothing more: select() only returns for the notification, which is consumed once. *)
+Record hs_st := mkHs { hs_state : nat; hs_next : nat (* the state the message being processed leads to *); hs_um : nat; hs_exited : bool; hs_pcA : nat; hs_pcI : nat }.
+Scheme Equality for hs_st.
+Definition hs_step (fixed : bool) (t : nat) (s : hs_st) : option hs_st :=
+  match t with
+  | 0 => match hs_pcA s with
+         | 0 => if hs_um s =? 0 then Some (mkHs (hs_state s) (hs_next s) 1 (hs_exited s) 1 (hs_pcI s)) else None
+         | 1 => Some (mkHs 9 (hs_next s) (hs_um s) (hs_exited s) 2 (hs_pcI s))
+         | 2 => Some (mkHs (hs_state s) (hs_next s) 0 (hs_exited s) 3 (hs_pcI s))
+         | 3 => if hs_exited s then Some (mkHs (hs_state s) (hs_next s) (hs_um s) true 4 (hs_pcI s)) else None     (* pthread_join *)
+         | _ => None
+         end
+  | 1 => match hs_pcI s with
+         | 0 => if hs_state s =? 9 then Some (mkHs 9 (hs_next s) (hs_um s) true (hs_pcA s) 9)                     (* loop ends: teardown, thread exits *)
+                else if hs_state s <? 3 then Some (mkHs (hs_state s) (S (hs_state s)) (hs_um s) false (hs_pcA s) 1)   (* the next handshake message is read and dispatched *)
+                else None                                                                                        (* RFB_NORMAL, idle: select() blocks *)
+         | 1 => if fixed
+                then (if hs_um s =? 0 then Some (mkHs (hs_state s) (hs_next s) 2 false (hs_pcA s) 2) else None)
+                else Some (mkHs (hs_next s) (hs_next s) (hs_um s) false (hs_pcA s) 0)                             (* cl->state = next, unconditionally *)
+         | 2 => Some (mkHs (if hs_state s =? 9 then 9 else hs_next s) (hs_next s) (hs_um s) false (hs_pcA s) 3)
+         | 3 => Some (mkHs (hs_state s) (hs_next s) 0 false (hs_pcA s) 0)
+         | _ => None
+         end
+  | _ => None
+  end.
+Definition hs_init : hs_st := mkHs 0 0 0 false 0 0.
+Definition hs_final (s : hs_st) : bool := (hs_pcA s =? 4) && (hs_pcI s =? 9).
+
 (* ================================================================== 4b. a request wakes the output thread (rfbserver.c, main.c)
    thread 0 = application: ONE framebuffer operation (kind 0: rfbMarkRectAsModified -> modifiedRegion, TSIGNAL;
               kind 1: rfbDoCopyRect -> copyRegion, TSIGNAL; kind 2: cursor moved/replaced -> cursor flag, no signal)
